@@ -87,6 +87,8 @@ TrEnd ==
           Reject(l, [cls |-> "fanout", with |-> Ev.outcome, fan |-> Ev.fanout, calls |-> Ev.fanoutSameCalls])
     /\ (Has(Ev, "calls") /\ Ev.outcome \in {"ok", "err"} /\ ~Lifecycle(Ev.calls, Ev.outcome)) =>
           Reject(l, [cls |-> "lifecycle", final |-> Final(Ev.calls), n |-> Len(Ev.calls)])
+    /\ (Has(Ev, "cpos") /\ Has(Ev, "calls") /\ Len(Ev.cpos) = Len(Ev.calls) /\ OpPositions(Ev.calls, Ev.cpos) # 0) =>
+          Reject(l, [cls |-> "oppos", at |-> OpPositions(Ev.calls, Ev.cpos), call |-> Ev.calls[OpPositions(Ev.calls, Ev.cpos)]])
     \* an execution that stops with an error in front of a signature opcode which the specification
     \* executes without error (pushing false, say): "a false result rather than an error" (C06)
     /\ (Ev.outcome = "err" /\ mode = "run" /\ vm.st = "run" /\ ~CurTok(vm).bad
